@@ -20,7 +20,8 @@ META = {
             "code on every run. Every run validates gen_rule/gen_skip/built-ins structurally against the parser the REAL generator emits "
             "for thousands of generated grammars (both feature sets), and compiles a batch of derive-generated parsers which it runs "
             "against the real pest_vm and against both extracted models on all inputs up to a length bound."
-            " When the translation validation finds a structural difference and no behavioural one, an escalated search pinpoints the differing construct (CULPRIT), builds grammars around it (1-4 pushes of different literals, predicates, choices, repetitions, trivia; the construct and its variants whose leaves pop / drop / peek - operations that change the stack before they can fail - as the whole operand of ?, *, | and predicates followed by stack readers) and runs the real derived parser against the real pest_vm on them; its hit is the replay.",
+            " Inside the known class C02-node-tag the two real back-ends are still compared with the labels erased (rules, spans, errors must agree)."
+            " When the translation validation finds a structural difference and no behavioural one, an escalated search pinpoints the differing construct (CULPRIT), builds grammars around it (1-4 pushes of different literals, predicates, choices, repetitions, trivia; the construct and its variants whose leaves pop / drop / peek - operations that change the stack before they can fail - as the whole operand of ?, *, | and predicates followed by stack readers; a differing built-in function in all those contexts) and runs the real derived parser against the real pest_vm on them, on inputs over each rule's own literals, the boundary characters of the built-ins it uses and the literals / range ends in which emitted code and model differ (and their neighbours); its hit is the replay.",
     "note": "Trusted: Coq kernel; extraction; the syn-based reader of the emitted code (strict: unknown shapes are errors) and the runner; "
             "VmCompile.v as the model of vm/src/lib.rs and Exec.v as the model of parser_state.rs (tied to the code by the batch runs here and "
             "by C01/C03); rustc for the compiled batch. The call limit is outside the statement: the back-ends count different calls, and the "
@@ -428,7 +429,17 @@ def run(tier, seed, replay=None):
                 "readers, normal and atomic rules; random members of the family in the generated stream); the shadowing differential (for each of the 11 "
                 "non-keyword built-ins and 5 Unicode properties one grammar that defines the name differently - narrower with a token / disjoint and silent, "
                 "alternating with the seed in the quick tier, both in the thorough one - and has one rule per OTHER built-in, on all strings up to length 2 "
-                "over the boundaries of every ASCII class, CR, LF, blank, +, e-acute and the grammar's literals) "
+                "over the boundaries of every ASCII class, CR, LF, blank, +, e-acute and the grammar's literals); the per-built-in differential runs each "
+                "hard-coded built-in bare, in a sequence, under ?, *, +, doubled in an atomic rule, in a choice and under a negative predicate, on all strings "
+                "up to length 3 over {CR, LF, x, 0, a, A, e-acute, blank} and on the characters at and around every boundary of its definition (a-1, a, b, b+1 "
+                "per range, e.g. U+007F / U+0080 for ASCII; every UTF-8 width for ANY) alone, doubled, in pairs and next to x - generated grammars that mention "
+                "a built-in get the boundary inputs too; the explicit-trivia differential (WHITESPACE x COMMENT modifiers: a Latin square over n, _, @, $ chosen "
+                "by the seed plus (!, !) in the quick tier, all 25 pairs in the thorough one; each grammar has, for every caller modifier and both trivia rules, "
+                "a rule that NAMES the trivia rule between two literals, callers through helper rules of other modifiers, under ?, *, +, | and both predicates; "
+                "a third of the generated grammars with trivia rules also call them by name); with grammar-extras the node-tag differential (tags on *, +, ?, "
+                "counted repetitions, choice, sequence, both predicates, PUSH, literals, inside repetitions, in non-atomic rules with silent and with "
+                "token-producing WHITESPACE / COMMENT, entered from atomic rules; inputs also with a trivia token after every letter; grammars with "
+                "`#t = e?` / `#t = e*` - known class C02-node-tag - are compared with every label erased: what remains different is a violation) "
                 "- one evaluation = one (grammar, rule, input), non-trivial = a parse producing tokens or failing past position 0" % (maxlen, maxlen_x),
         "exhaustive": True,
         "exhaustive_bound": "inputs: all strings over a 4-letter alphabet up to length %d per grammar and rule; grammars: sampled (the theorem is unbounded)" % maxlen,
@@ -441,8 +452,9 @@ def run(tier, seed, replay=None):
         "known_classes_seen": sorted(seen_classes.keys()),
         "batch_grammars": batches,
         "fixed_families_in_batch": families,
+        "beyond_node_tag_differences": stats.get("beyond_tags", 0),
         "escalated_search": searches if searches else "not run (no structural difference between emitted code and model)",
     })
     res.assumptions = ["no call limit (limit = None) in the theorem; the batch runs under a limit of 3000 calls and discards cases that touch it",
-                       "the batch alphabet is {x, y, space, 5}; the theorem is for arbitrary byte strings"]
+                       "the batch alphabet is {x, y, space, 5} (plus class-boundary characters where built-ins are used); the theorem is for arbitrary byte strings"]
     return res.finish()
